@@ -49,6 +49,9 @@ def run(tier, seed):
             if c['load1'] != c['want_load1'] or c['load2'] != c['want_load2']:
                 chk.violation(dict(stage='c17-oracle', what='command-line loads'), 'attachments %r load pulses %r / %r (with multiplicity, as the matrix fill '
                               'sees them), the geometry table says %r / %r' % ([a for a in c['argv'] if 'attach' in a], c['load1'], c['load2'], c['want_load1'], c['want_load2']), r['spec'])
+            if 'rewritten' in c and c['rewritten'] != [c['want_load1'], c['want_load2']]:
+                chk.violation(dict(stage='c17-oracle', what='per-object option writer'), 'the loads written per object (%r) sit on pulses %r when read back, they were attached to %r / %r'
+                              % (c.get('attach_written'), c['rewritten'], c['want_load1'], c['want_load2']), r['spec'])
         tags = o['tags']
         if tags != sorted(tags) or len(set(tags)) != len(tags):
             chk.violation(dict(stage='c17-oracle', what='tag order'), 'objects not ordered by distinct tags: %r' % tags, r['spec'])
